@@ -16,7 +16,8 @@ var verifMethodSets = [][]string{
 	{"GET", "POST", "PUT", "PATCH", "DELETE", "OPTIONS", "HEAD", "CONNECT", "TRACE"}, {"DELETE", "PUT"},
 }
 
-var verifReqMethods = []string{"GET", "POST", "HEAD", "DELETE", "BREW"}
+// (the last one is not a method name at all, only the beginning of one: no route is registered for it)
+var verifReqMethods = []string{"GET", "POST", "HEAD", "DELETE", "BREW", "GE"}
 
 type verifRouteDef struct {
 	pat     string
